@@ -144,7 +144,8 @@ pub trait CholeskyDecomposableMatrix<T: RealNumber>: BaseMatrix<T> {
             }
             d = self.get(j, j) - d;
 
-            if d < T::zero() {
+            // NaN arises from a zero pivot earlier on; it must not pass as "not negative"
+            if d < T::zero() || d.is_nan() {
                 return Err(Failed::because(
                     FailedError::DecompositionFailed,
                     "The matrix is not positive definite.",
